@@ -172,9 +172,19 @@ pub fn explore(case : &Case, caps : &Caps, only : Option<(u32, Option<u32>, Opti
             if l >= 2
             {
                 let is_state = in_ruler_dir(&cp.path) && !in_cache(&cp.path);
-                if is_state && caps.torn_state_all && l <= 512
+                if is_state && caps.torn_state_all && l <= 64
                 {
                     for n in 1..l { states.push((i, Some(n as u32))); }
+                }
+                else if is_state && caps.torn_state_all
+                {
+                    // every state file is written to <path>.tmp and renamed: all strict prefixes of one
+                    // write are the same situation, so a sample (with both ends) is enough
+                    let mut offs = BTreeSet::new();
+                    offs.insert(1u32);
+                    offs.insert((l - 1) as u32);
+                    for _ in 0..24 { offs.insert(1 + rng.below((l - 1) as u64) as u32); }
+                    for n in offs { states.push((i, Some(n))); }
                 }
                 else
                 {
@@ -230,7 +240,7 @@ pub fn explore(case : &Case, caps : &Caps, only : Option<(u32, Option<u32>, Opti
         // (3) the next build recovers: fresh process, nothing but the disk survives
         let want_second = second_only.is_some() || (only.is_none() && caps.second_kill_one_in > 0 && rng.below(caps.second_kill_one_in) == 0);
         let mut recoveries = vec![recovery.clone()];
-        if caps.recovery_sampled && only.is_none() { recoveries.push(SchedSpec::random(rng)); }
+        if caps.recovery_sampled && only.is_none() && rng.chance(1, 4) { recoveries.push(SchedSpec::random(rng)); }
         let mut first_recovery : Option<(Inv, Vec<CrashPoint>)> = None;
         for (ri, rsched) in recoveries.into_iter().enumerate()
         {
@@ -324,7 +334,7 @@ pub fn explore(case : &Case, caps : &Caps, only : Option<(u32, Option<u32>, Opti
 
 fn caps_for(thorough : bool) -> Caps
 {
-    if thorough { Caps{ max_states : 0, torn_state_all : true, torn_samples : 8, recovery_sampled : true, second_kill_one_in : 6, second_kill_states : 12 } }
+    if thorough { Caps{ max_states : 0, torn_state_all : true, torn_samples : 4, recovery_sampled : true, second_kill_one_in : 8, second_kill_states : 12 } }
     else { Caps{ max_states : 150, torn_state_all : false, torn_samples : 3, recovery_sampled : false, second_kill_one_in : 12, second_kill_states : 4 } }
 }
 
@@ -358,7 +368,7 @@ pub fn run_one(cfg : &Config, seed : u64, k : u64, stats : &mut Stats) -> Vec<Fo
     if k < 3 * cfg.workers { stats.sample(case.to_j().set("victim_op", J::Int(victim as i64))); }
 
     let caps = caps_for(cfg.thorough);
-    let n_sched = if cfg.thorough { 1 + 4 } else { 1 + 2 };
+    let n_sched = if cfg.thorough { 1 + 3 } else { 1 + 2 };
     let mut found : Vec<Found> = vec![];
     for j in 0..n_sched
     {
